@@ -307,6 +307,46 @@ def check_cancelled(case):
     return _check_batch(case)
 
 
+# --- enumerations chosen by the user -----------------------------------------------------------------
+PREMAPS = [[('a', 0), ('b', 1), ('c', 2), ('d', 3)],           # 'b' (or more) stays unused: superset of the variables
+           [('a', 0), ('c', 5), ('d', 2)],                      # integers with gaps
+           [('d', 0), ('c', 1), ('a', 2), ('zz', 7)],           # an unused label far beyond the variables
+           [('a', 3), ('c', 4), ('d', 9)]]                      # nothing mapped to 0
+
+
+def _gen_user_mappings(ctx):
+    for fn in ("puso", "pubo", "quso", "qubo"):
+        calls = []
+        for tname in LABELLED[fn]:
+            deg3 = fn in ("puso", "pubo") and not tname.startswith("Q")
+            models = [{('a', 'd'): 1, ('c',): -1}, {('a',): 1}, {('d', 'c'): -2, ('a', 'c'): 1, (): 3}]
+            if deg3:
+                models.append({('a', 'd', 'c'): 1})
+            for terms in models:
+                for pm in PREMAPS:
+                    for kw in ({"num_anneals": 2, "anneal_duration": 2, "seed": 1},
+                               {"schedule": [1.0, 0], "in_order": False, "seed": 3},
+                               {"schedule": [0.5], "seed": 2, "initial_state": "first"}):
+                        kw = dict(kw)
+                        if kw.get("initial_state") == "first":
+                            dom0 = 1 if SPIN_FN[fn] else 0
+                            kw["initial_state"] = {l: dom0 for l in variables_of(terms)}
+                        s = _spec(fn, tname, terms, kw)
+                        s["premap"] = pm
+                        calls.append(s)
+        yield {"calls": calls[:1]}
+        yield {"calls": calls}
+
+
+@clause("C17.asan_user_mappings", "C17", gen=_gen_user_mappings, nontrivial=lambda c: True if c["calls"] else False)
+def check_user_mappings(case):
+    """Labelled models whose enumeration was chosen with set_mapping before the terms were entered: the mapping names
+    labels the model never uses, or uses integers with gaps or beyond the number of variables. The buffers handed to
+    the C kernels must cover every integer label that occurs in the enumerated model; run against the ASan+UBSan
+    build, every function and labelled type."""
+    return _check_batch(case)
+
+
 # --- sequences ------------------------------------------------------------------------------------------
 def _gen_sequences(ctx):
     rng = ctx.rng("c17.seq")
